@@ -205,6 +205,8 @@ def snap_grid(
     :return: ``tx, nx`` that defines 1-d grid, such that ``x0`` and ``x1`` are within edge pixels.
     """
     assert (off_pix is None) or (0 <= off_pix < 1)
+    # plain floats: arithmetic below must not happen in float32 of a caller's array
+    x0, x1, res = float(x0), float(x1), float(res)
     if off_pix is None:
         if res > 0:
             nx = ceil(maybe_int((x1 - x0) / res, tol))
